@@ -271,6 +271,8 @@ def judge_case(ctx, case, R, M):
             ctx.judge(one, res["lin"], res["lin"], Mr, what="linear RHS real vs model")
             continue
         steady = all(v == "0" for _, v in res["base_rhs"])
+        tag = ("uniform" if ev.get("uniform") is not None else "marginal") + ("@steady" if steady else "")
+        ctx.hist["eval:" + tag] = ctx.hist.get("eval:" + tag, 0) + 1
         if ev.get("uniform") is not None:
             if steady:
                 zero = {"ok": [[kk, "0"] for kk, _ in res["lin"]["ok"]]} if "ok" in res["lin"] else None
@@ -435,8 +437,22 @@ TEMPLATES = [
 ]
 
 
+def random_network(rng):
+    """random mass-action network over labelled compounds: 0-2 distinct substrates, 0-2 products per reaction"""
+    cpds = [f"X{i}" for i in range(rng.randint(2, 4))]
+    out = []
+    for ri in range(rng.randint(1, 4)):
+        subs = rng.sample(cpds, rng.choice([0, 1, 1, 2]))
+        rest = [c for c in cpds if c not in subs]
+        prods = [rng.choice(rest) for _ in range(rng.choice([0, 1, 1, 2]))] if rest else []
+        if not subs and not prods:
+            prods = [rng.choice(cpds)]
+        out.append((f"v{ri}", subs, prods))
+    return out
+
+
 def random_case(rng):
-    tpl = rng.choice(TEMPLATES)
+    tpl = rng.choice(TEMPLATES) if rng.random() < 0.5 else random_network(rng)
     cpds = list(dict.fromkeys(c for _, s, p in tpl for c in s + p))
     labels = {c: rng.choice([1, 2, 2, 3]) for c in cpds}
     bad = rng.random()
@@ -513,9 +529,9 @@ def run(ctx):
     ctx.exhaustive = True
     ctx.extra_cov["exhaustive_stratum"] = len(ex)
     run_cases(ctx, ex)
-    n = ctx.n(600, 20000)
+    n = ctx.n(3000, 100000)
     if not ctx.proof_ok or ctx.drift:
-        n = max(n, 3000)
+        n = max(n, 6000)
         ctx.notes.append("proof/correspondence broken: widened random search for a failing input")
     run_cases(ctx, [random_case(rng) for _ in range(n)])
 
